@@ -5454,6 +5454,19 @@ func (l *Lowerer) lowerBinary(bin *parser.BinaryExpr, target *[]ir.Statement) (i
 		left, right = l.concretizeBinaryOperands(left, right)
 	}
 
+	// An integer division or remainder whose operands are both const-expressions
+	// and whose divisor is zero is a shader-creation error (Rust naga constant
+	// evaluator: DivisionByZero / RemainderByZero); tryFoldBinaryOp declines to fold it.
+	if op == ir.BinaryDivide || op == ir.BinaryModulo {
+		if litL, okL := l.extractConstLiteral(left); okL && isIntegerLiteral(litL) {
+			if litR, okR := l.extractConstLiteral(right); okR && isIntegerLiteral(litR) {
+				if vr, _ := literalToI64(litR); vr == 0 {
+					return 0, fmt.Errorf("division by zero in constant expression")
+				}
+			}
+		}
+	}
+
 	// Constant fold: binary ops on scalar literals.
 	// Matches Rust naga constant evaluator binary_op folding.
 	if result, ok := l.tryFoldBinaryOp(op, left, right); ok {
